@@ -90,6 +90,9 @@ def c03(ctx):
     ctx.mon("c03/asm-release", "asm", "release", ["c03"])
     # the other two build flavours of the crate (different kernels behind the same dispatch, and in
     # `pure` a different compile-time MAX_SIMD_DEGREE), with their natural platform detection
+    # the same histories while every thread is interrupted by a signal every 40 us (handler on the
+    # thread's own stack): the assembly behind fill() must keep nothing live below the red zone
+    ctx.mon("c03/asm-release-sigstorm", "asm", "release", ["c03", "--scale", "0.5"], env_extra={"VERIF_SIGSTORM": "40"})
     ctx.mon("c03/pure-debug", "pure", "debug", ["c03", "--scale", "0.3"])
     ctx.mon("c03/intr-debug", "intr", "debug", ["c03", "--scale", "0.3"])
     if ctx.thorough:
@@ -260,6 +263,8 @@ def c07(ctx):
     so = core.cdrv_run(ctx, "kernels/cdrv-asm-sigstorm", "asm", "native", "kernels", scale=1.0 if t else 0.25, env_extra={"CDRV_SIGSTORM": "40"})
     if not so["classes"].get("storm_signals_inside_monitored_calls"):
         ctx.note_inconclusive("signal storm: no signal was delivered inside a monitored call")
+    ctx.mon("kernels/rust-asm-sigstorm", "asm", "release", ["kern", "--scale", "0.5" if t else "0.2"], env_extra={"VERIF_SIGSTORM": "40"})
+    ctx.mon("rust-api-sigstorm/c03", "asm", "release", ["c03", "--scale", "0.5"], env_extra={"VERIF_SIGSTORM": "40"}, adopt=lambda sig: sig.startswith("C03/"))
     # 2. Rust API level: every update slice / fill destination flush against a guard page
     ctx.mon("rust-api-guard/c02", "asm", "debug", ["c02", "--guard", "1", "--scale", "2" if t else "0.3"], adopt=lambda sig: ("canary" in sig or "fatal" in sig))
     ctx.mon("rust-api-guard/c03", "asm", "debug", ["c03", "--guard", "1", "--scale", "2" if t else "0.3"], adopt=lambda sig: ("canary" in sig or "fatal" in sig))
@@ -323,6 +328,8 @@ def c14(ctx):
 def c15(ctx):
     ctx.mon("c15/asm-debug", "asm", "debug", ["c15"])
     ctx.mon("c15/asm-release", "asm", "release", ["c15"])
+    # one update call of more than 2^32 bytes into the reference implementation
+    ctx.mon("c15/huge-refimpl", "asm", "release", ["huge", "--what", "refimpl"], timeout=3600)
     xtarget(ctx, ["reference_impl"])
     # second, independent voice for the published vectors: pyspec (big-int Python model)
     import json, sys
